@@ -5,6 +5,8 @@ TEXTS = {
  'C04': ("Bounded model checking of accumulation kernels (every planner instantiation) and the cross-partition group merge (merge_deduplicate -> merge_aggregate/merge_drop) against an exact reference with NULL as a separate value.", "§3 C04"),
  'C05': ("Bounded model checking of comparator impls, heap_replace (inductive step from an arbitrary valid heap), order merge with limit and payload carry.", "§3 C05"),
  'C06': ("Bounded model checking (full operand width) of every checked arithmetic kernel instantiation against exact i128 arithmetic, checked SUM accumulation and cross-partition SUM combine.", "§3 C06"),
+ 'C07': ("Bounded model checking of the column re-encode step of compaction: the ColumnBuffer append sequences compact() performs keep NULL positions and values for all values/null maps within the shapes. Partition swap, eviction/reload and the disk round trip (lock/IO code) are outside the claim.", "§3 C07"),
+ 'C13': ("Bounded model checking of the NULL-padding kernels that make a late or absent column read as NULL. The catalogue itself (HashSet state shared across threads) is outside the claim.", "§3 C13"),
 }
 NA_REASON = {
  'C09': "crash points of std::fs effects issued from thread-pool jobs: neither Kani (no threads/FS) nor a MIR encoding can execute them; see DESIGN.md §4",
